@@ -433,7 +433,7 @@ def prepare(case):
     except Exception as e:
         case["pre"]["maps"] = None
     cost["est"] = round(cost.get("est", 0.0), 2)
-    if cost["raw"] > MAX_RAW or cost["glued"] > MAX_GLUED or cost["host"] > MAX_HOST or cost["est"] > case.get("cap", 12.0):
+    if cost["raw"] > MAX_RAW or cost["glued"] > case.get("max_glued", MAX_GLUED) or cost["host"] > MAX_HOST or cost["est"] > case.get("cap", 12.0):
         case["pre"]["big"] = True
     return case
 
@@ -1066,6 +1066,27 @@ def prefilter_cases(cases, rng, k_sub, k_tpl, cap):
         q["opts"] = dict(opts)
         q["n_all"] = n
         out.append(prepare(q))
+    # the guard belongs to the FIRST search only: propane, full template with all eight hydrogens written out, implicit-template mode
+    # (the pattern keeps its explicit X-H bonds, so every kept match is re-matched on the hydrogen-expanded substrate): the
+    # first search has 27 candidate combinations, the re-match 27 * 8^8 = 4.5e8 > 5000 * 10000 — a guard handed on to the
+    # re-match would empty the answer (288 glued graphs, 24 reactions)
+    r = ("[C:1]([H:4])([H:5])([H:6])[C:2]([H:7])([H:8])[C:3]([H:9])([H:10])[H:11]>>"
+         "[C:1]([H:4])([H:5])=[C:2]([H:7])[C:3]([H:9])([H:10])[H:11].[H:6][H:8]")
+    p = dict(kind="hand", name="hand:propane-dehydrogenation-explicit:full:fwd:I:CCC:prefilter-built-rematch", tpl=dict(rsmi=r, core=False), sub="CCC",
+             invert=False, mode="I", first_sub="CCC")
+    q = _mk_case(p, rng, 1, 1, cap)
+    q.pop("seq", None)
+    q["strategies"] = ["all"]
+    q["opts"] = dict(embed_pre_filter=True)
+    q["n_all"] = 2
+    q["max_glued"] = 400
+    out.append(prepare(q))
+    # ... and the cap applies to BOTH searches: the same inputs with embed_threshold = 10 — the first search (2 embeddings) is within
+    # the cap, each re-match (144 embeddings) is over it: no result at all
+    q2 = {a: b for a, b in q.items() if a != "pre"}
+    q2["name"] = "hand:propane-dehydrogenation-explicit:full:fwd:I:CCC:thr=10/2-rematch"
+    q2["opts"] = dict(embed_threshold=10)
+    out.append(prepare(q2))
     return out
 
 
